@@ -24,6 +24,7 @@ RtFails(ev) ==
          \cup Pre("reparse0_", Diff(ev.re0, A))
          \cup Pre("reparse1_", Diff(ev.re1, A))
          \cup (IF ~ev.eq THEN {"equality_after_roundtrip"} ELSE {})
+         \cup Pre("parse_again_after_editing_first_result_", Diff(ev.again, A))
          \cup (IF ev.built0 # Write(A, FALSE) THEN {"built_serialize_noplus"} ELSE {})
          \cup (IF ev.built1 # Write(A, TRUE) THEN {"built_serialize_plus"} ELSE {})
 
